@@ -243,8 +243,10 @@ where
 
         let mut last_state = self.positions.clone();
 
-        let mut last_state_data = last_state.to_data();
-        if let Err(e) = tracker.step(last_state_data.as_slice::<T>().unwrap()) {
+        // Convert to f32 (what the tracker works in) instead of reinterpreting the buffer: the
+        // backend's float type need not be `T`.
+        let mut last_state_data = last_state.to_data().convert::<f32>();
+        if let Err(e) = tracker.step(last_state_data.as_slice::<f32>().unwrap()) {
             eprintln!("Warning: Shown progress statistics may be unreliable since updating them failed with: {}", e);
         }
 
@@ -262,8 +264,8 @@ where
             pb.inc(1);
             last_state = current_state;
 
-            last_state_data = last_state.to_data();
-            if let Err(e) = tracker.step(last_state_data.as_slice::<T>().unwrap()) {
+            last_state_data = last_state.to_data().convert::<f32>();
+            if let Err(e) = tracker.step(last_state_data.as_slice::<f32>().unwrap()) {
                 eprintln!("Warning: Shown progress statistics may be unreliable since updating them failed with: {}", e);
             }
 
